@@ -276,8 +276,8 @@ def check(prog, rep):
                 hits = [(static_head(x.args[0]), suppressed_by_filter(prog, x)) for s_ in getattr(blk, "body", []) for x in calls_in(s_)
                         if U(x.func) == "_LOGGER.warning" and x.args and suppressed_by_filter(prog, x)]
                 r4.add(f"deletion-report-not-filtered|{key}", not hits, "the warnings that report the deletion are not subject to the duplicate-message "
-                       "filter" if not hits else f"the deletion is reported by a message beginning {hits[0][0]!r}, which config.FILTER_WARNINGS ({hits[0][1]!r}) "
-                       "suppresses after a fixed number of repetitions: later deletions go unreported", where)
+                       "filter" if not hits else f"the deletion is reported by a message beginning {hits[0][0]!r}, which does not always reach the user "
+                       f"({hits[0][1]}): later deletions go unreported", where)
     rep_ = rep
     rep_.guarded(_removed_hydrogens_are_rebuilt, prog, r4)
     heavy_removed = {}
@@ -339,7 +339,7 @@ def check(prog, rep):
     warns = [c for c in calls_in(ah) if U(c.func) in ("_LOGGER.warning", "_LOGGER.error") and "Couldn't rebuild" in U(c)]
     sup = [suppressed_by_filter(prog, c) for c in warns if suppressed_by_filter(prog, c)]
     r5.add("placement-failure-warned", bool(warns) and not sup, "a hydrogen that cannot be placed is reported by a warning" +
-           (f" - but the message falls under config.FILTER_WARNINGS ({sup[0]!r}) and is dropped after a fixed number of repetitions" if sup else ""),
+           (f" - but the message does not always reach the user ({sup[0]})" if sup else ""),
            f"pdb2pqr/biomolecule.py:{ah.lineno} (add_hydrogens)")
 
     # ------------------------------------------------------------------ R6
